@@ -265,6 +265,10 @@ class Prop:
                                       {"k": "drop", "o": c.randrange(npool + 2)},
                                       {"k": "drop", "o": c.randrange(npool + 2)}]))
             term.append({"k": "gc_check"})
+            if c.random() < 0.5:
+                # the owner of a registered bound-method handler dies and a NEW owner of
+                # the same class (often at the very address just freed) registers
+                term.append({"k": "reincarnate", "h": c.randrange(nh)})
             for _ in range(c.randint(1, 4)):
                 term.append(G.gen_graph_op(c, npool))
         return {"prop": ID, "seed": seed,
@@ -330,7 +334,7 @@ class Prop:
                 self.poison_try(op, i)
             elif k == "desync_remove":
                 self.desync_remove(op, i)
-            elif k in ("drop_owner", "drop_root", "gc_check"):
+            elif k in ("drop_owner", "drop_root", "gc_check", "reincarnate"):
                 self.weakness(op, i)
             else:
                 self.graph_step(op, i)
@@ -763,6 +767,46 @@ class Prop:
             h.loose = True
             S.weak_phase = True
             S.env.probe("owner-dropped")
+        elif k == "reincarnate":
+            h = S.handlers[op["h"] % len(S.handlers)]
+            if h.owner is None or h.dead or h.loose or h.count == 0 or S.tainted:
+                return
+            root = world.node(h.root_uid)
+            if root is None or G.match(h.expr, world.model(h.root_uid))[2]:
+                return
+            S.weak_phase = True
+            S.records[:] = [r_ for r_ in S.records if r_["h"] != h.id]
+            gc.collect()
+            old_id = id(h.owner)
+            N = 512
+            cands = [None] * N            # (allocated before the owner is released)
+            args = (h.id, S.records, S.sched, S.env)
+            wr = weakref.ref(h.owner)
+            h.fn = None
+            h.owner = None                # the old owner is gone (reference counting); its
+            #                               registration stays behind as an inert entry
+            for q in range(N):            # tight loop: nothing else allocates in between
+                cands[q] = Owner(*args)
+                if id(cands[q]) == old_id:
+                    break
+            # a new owner - at the address just freed if the allocator hands it out again
+            # (it does, among the next few objects of that size)
+            if wr() is not None:
+                S.env.probe("old-owner-still-referenced")
+            same = [x for x in cands if x is not None and id(x) == old_id]
+            h.owner = same[0] if same else cands[0]
+            S.env.probe("owner-reincarnated-at-same-address" if same
+                        else "owner-reincarnated-elsewhere")
+            del cands, same
+            h.fn = h.owner.on_event
+            h.counts = {"same": 0, "ui": 0}
+            dispatch = h.spec["dispatch"]
+            _, e = sut(root.observe, h.fn, self.render(h, 0), dispatch=dispatch)
+            if e is not None:
+                raise Violation("C09.registration-raised",
+                                "registration of a new owner's method raised %r" % (e,), i)
+            h.counts[dispatch] = 1
+            S.env.probe("owner-reincarnated")
         elif k == "drop_root":
             h = S.handlers[op["h"] % len(S.handlers)]
             if h.dead or h.loose:
